@@ -6,5 +6,5 @@ CONSTANTS
   DepthProbe = {0, 1, 2, 256}
 INIT Init
 NEXT Next
-INVARIANTS Inv_AcceptIffJson Inv_Value Inv_DepthScan Inv_SerRoundTrip Inv_IndexLaws Inv_DeadStaysDead
+INVARIANTS Inv_C13 Inv_DeadStaysDead
 CHECK_DEADLOCK FALSE
